@@ -29,6 +29,7 @@ class no_grad:
     
     def __enter__(self):
         global gradient__
+        self.prev = gradient__
         gradient__ = False
         
     def __exit__(self, exc_type, exc_val, exc_tb):
@@ -42,6 +43,7 @@ class retain_grads:
     
     def __enter__(self):
         global retain_grads__
+        self.prev = retain_grads__
         retain_grads__ = True
         
     def __exit__(self, exc_type, exc_val, exc_tb):
